@@ -176,6 +176,18 @@ m("c14-round-instead", "C14", "Compose rounds away a non-zero last digit instead
   ("compose.go", "\t\tfor sig128[1] > 0x0002_7fff_ffff_ffff {\n\t\t\tvar rem uint64\n\t\t\tsig128, rem = sig128.div10()\n\n\t\t\tif rem != 0 {\n\t\t\t\treturn &composeRangeError{}\n\t\t\t}",
    "\t\tfor sig128[1] > 0x0002_7fff_ffff_ffff {\n\t\t\tvar rem uint64\n\t\t\tsig128, rem = sig128.div10()\n\n\t\t\tif rem > 5 {\n\t\t\t\treturn &composeRangeError{}\n\t\t\t}"))
 
+m("c20-format-scratch", "C20", "the fmt.Formatter/Decimal.Append path formats through a package-level scratch digits value (only reachable through fmt or Decimal.Append)",
+  ("format.go", "func (d Decimal) format(buf []byte, args *formatArgs) []byte {\n\tvar digs digits\n\td.digits(&digs)\n", "func (d Decimal) format(buf []byte, args *formatArgs) []byte {\n\tdigs := &formatScratch\n\td.digits(digs)\n"),
+  ("format.go", "type digits struct {", "var formatScratch digits\n\ntype digits struct {"))
+
+m("c05-mode-once", "C05", "parseNumber captures DefaultRoundingMode the first time it runs (sync.Once) and keeps using it for the life-time of the process",
+  ("scan.go", "\tsig, exp16 := DefaultRoundingMode.reduce128(neg, sig, int16(exp)+exponentBias, trunc)", "\tparseModeOnce.Do(func() { parseMode = DefaultRoundingMode })\n\n\tsig, exp16 := parseMode.reduce128(neg, sig, int16(exp)+exponentBias, trunc)"),
+  ("scan.go", "type parseNumberRangeError struct{}", "var (\n\tparseModeOnce sync.Once\n\tparseMode     RoundingMode\n)\n\ntype parseNumberRangeError struct{}"),
+  ("scan.go", "\t\"strconv\"\n)", "\t\"strconv\"\n\t\"sync\"\n)"))
+
+m("c20-lazy-pow-benign-race", "C20", "a lazily filled copy of the powers-of-ten table: every goroutine writes identical values (results stay right, but it is a data race)",
+  ("int.go", "func (n uint128) log10() int {", "var (\n\tpow10Lazy      [39]uint128\n\tpow10LazyReady bool\n)\n\nfunc lazyPow10(i int) uint128 {\n\tif !pow10LazyReady {\n\t\tfor j := range pow10Lazy {\n\t\t\tpow10Lazy[j] = uint128PowersOf10[j]\n\t\t}\n\n\t\tpow10LazyReady = true\n\t}\n\n\treturn pow10Lazy[i]\n}\n\nfunc (n uint128) log10() int {\n\t_ = lazyPow10(0)\n"))
+
 def main():
     os.makedirs(OUT, exist_ok=True)
     for f in os.listdir(OUT):
